@@ -14,6 +14,7 @@ import (
 func init() {
 	register("C09_Middleware", C09_Middleware)
 	register("C09_LoginStartsClock", C09_LoginStartsClock)
+	register("C09_TwoRequests", C09_TwoRequests)
 }
 
 type seen struct {
@@ -141,6 +142,68 @@ func C09_LoginStartsClock() {
 		verif.Assert(err == nil, "stamp is RFC3339")
 		if err == nil {
 			verif.Assert(nt.Unix() >= tb.Unix() && nt.Unix() <= ta.Unix(), "stamp is the login time")
+		}
+	}
+}
+
+// C09_TwoRequests: "a session survives a sequence iff every gap is below the threshold": two
+// requests through the middleware from a logged-in session at arbitrary non-decreasing
+// instants. The second request is judged against the stamp the library itself wrote during the
+// first one (format / parse round trip of its own stamp included).
+func C09_TwoRequests() {
+	verif.ReplayInInterpreter()
+	w := world.New()
+	expireAfter := time.Duration(verif.Int("ExpireAfter", 1, maxDur))
+	w.AB.Config.Modules.ExpireAfter = expireAfter
+	uid := verif.String("S_uid", 4)
+	verif.Assume(uid != "")
+	w.Session.Set(authboss.SessionKey, uid)
+	hasStamp := verif.Bool("has_last_action")
+	w.Session.SetP(authboss.SessionLastAction, verif.Time("stamp").UTC().Format(time.RFC3339), hasStamp)
+	var uidSeen string
+	next := http.HandlerFunc(func(wr http.ResponseWriter, r *http.Request) {
+		uidSeen, _ = w.AB.CurrentUserID(r)
+		wr.WriteHeader(200)
+	})
+	h := expire.Middleware(w.AB)(next)
+	w.Serve(h, world.Request("GET", "/one", ""))
+	if uidSeen == "" {
+		// expired at the first request: logged out for good
+		verif.Reach("first-request-expired")
+		verif.Assert(!w.Session.Has(authboss.SessionKey), "an expired session is logged out")
+		w.Serve(h, world.Request("GET", "/two", ""))
+		verif.Assert(uidSeen == "", "once expired, the next request is anonymous too")
+		return
+	}
+	la, has := w.Session.Lookup(authboss.SessionLastAction)
+	verif.Assert(has, "a served request stamps the session")
+	if !has {
+		return
+	}
+	stamp, err := time.Parse(time.RFC3339, la)
+	verif.Assert(err == nil, "the stamp is RFC3339")
+	if err != nil {
+		return
+	}
+	deadline := stamp.Add(expireAfter)
+	tb := time.Now().UTC()
+	w.Serve(h, world.Request("GET", "/two", ""))
+	ta := time.Now().UTC()
+	expired := !tb.Before(deadline)
+	fresh := ta.Before(deadline)
+	verif.Witness(expired, "second-request-after-the-deadline")
+	verif.Witness(fresh, "second-request-before-the-deadline")
+	if expired {
+		verif.Assert(uidSeen == "", "a gap of ExpireAfter or more ends the session")
+		verif.Assert(!w.Session.Has(authboss.SessionKey) && !w.Session.Has(authboss.SessionLastAction), "an expired session is logged out")
+	}
+	if fresh {
+		verif.Assert(uidSeen == uid, "a gap below ExpireAfter keeps the session")
+		la2, has2 := w.Session.Lookup(authboss.SessionLastAction)
+		verif.Assert(has2, "the deadline is pushed forward")
+		if has2 {
+			s2, err2 := time.Parse(time.RFC3339, la2)
+			verif.Assert(err2 == nil && s2.Unix() >= tb.Unix() && s2.Unix() <= ta.Unix(), "the new stamp is the second request's time")
 		}
 	}
 }
